@@ -13,7 +13,14 @@
 
 using namespace sv;
 
-template <class App> struct Neg { static const char *int_port(); static const char *index_beyond(); };
+template <class App> struct Neg { static const char *int_port(); static const char *index_beyond(); static const char *below(); static const char *below_typed(); };
+// a line addressing something below an existing port / sub-tree that no port accepts, and one with an argument no port there takes
+template <> const char *Neg<sapp::Flat>::below() { return "/pi/bogus 1"; }
+template <> const char *Neg<sapp::Flat>::below_typed() { return "/ai0/x 1"; }
+template <> const char *Neg<sapp::Preset>::below() { return "/vol/bogus 1"; }
+template <> const char *Neg<sapp::Preset>::below_typed() { return "/arr0/x 1"; }
+template <> const char *Neg<sapp::Tree>::below() { return "/a/bogus 1"; }
+template <> const char *Neg<sapp::Tree>::below_typed() { return "/v1/x 0.5"; }
 template <> const char *Neg<sapp::Flat>::int_port() { return "/pi"; }
 template <> const char *Neg<sapp::Flat>::index_beyond() { return "/ai4 1"; }
 template <> const char *Neg<sapp::Preset>::int_port() { return "/vol"; }
@@ -160,6 +167,8 @@ template <class App> void check_state(const Space<App> &S, const Hist &h, bool f
         {"reject-unaccepted", "no-such-port", "/no_such_port 1"},
         {"reject-unaccepted", "argument-type-no-port-takes", ip + " 0.5"},
         {"reject-unaccepted", "index-beyond-array", Neg<App>::index_beyond()},
+        {"reject-unaccepted", "no-such-port-below-existing-port", Neg<App>::below()},
+        {"reject-unaccepted", "wrong-argument-type-below-sub-tree", Neg<App>::below_typed()},
     };
     const size_t NF = sizeof forms / sizeof forms[0];
     for(size_t k = 0; k < NF; ++k) {
@@ -203,7 +212,7 @@ template <class App> void run_app(int depth, int root_depth, int full_neg_depth)
     const std::string app = App::name();
     vp::bound(app + ".alphabet", std::to_string(S.ops.size()) + " parameter messages; " + std::to_string(S.roots.size()) + " many-parameter root states");
     vp::bound(app + ".depth", "all histories of <= " + std::to_string(depth) + " messages from the default instance, <= " + std::to_string(root_depth) + " from each root state");
-    vp::bound(app + ".negatives", "header/appname forms for every state; all 6 bad-line forms at every line position for states of depth <= " + std::to_string(full_neg_depth) +
+    vp::bound(app + ".negatives", "header/appname forms for every state; all 8 bad-line forms at every line position for states of depth <= " + std::to_string(full_neg_depth) +
               " and root states, one form (rotating with the state index) at every position for deeper states");
     auto crashed = [&](size_t, const Mark &m, const std::string &how) {
         vp::violation(crash_signature(S, m), m.case_id, how + " in phase " + m.phase + "; the rest of this state was skipped; file: " + vp::show(std::string(m.text, m.text_len).substr(0, 600)));
